@@ -15,7 +15,7 @@ META = dict(
     functions=["qucumber/nn_states/positive_wavefunction.py, complex_wavefunction.py, density_matrix.py: __init__, fit (guards)",
                "qucumber/nn_states/neural_state.py: reinitialize_parameters, fit", "qucumber/rbm/binary_rbm.py, purification_rbm.py: __init__, initialize_parameters"],
     bounds=dict(quick="three state types x {sizes given (num_hidden / num_aux defaulted or explicit, != num_visible), module given}; num_visible in {2,3}; one SGD step for the mixed state (1,1,1) and (2,1,2)",
-                thorough="num_visible up to 4; reinitialise / train sequences"),
+                thorough="num_visible up to 4; training of (1,1,2) for two epochs and (2,1,1) for one epoch"),
     outside=["optimizers other than SGD (their update rule is torch's)", "GPU placement"],
     stubs=["torch.randn -> fresh symbolic tape variables", "torch.bernoulli / randperm / randint -> scripted", "torch -> vf.symtorch"],
 )
@@ -176,7 +176,7 @@ def construct(B, G, n, h, a):
     G.twin("twin_weight_scale", entries(B, nn.PositiveWaveFunction(n, h, gpu=False).rbm_am.weights)[0], B.tensor(log[-1]).view(-1)[0] if False else entries(B, B.tensor(log[-1]))[0])
 
 
-def train_step(B, G, n, h, a):
+def train_step(B, G, n, h, a, epochs=2):
     """after symbolic SGD steps the phase network's auxiliary bias is still exactly zero"""
     O = B.O
     st, P = C.make_state(B, "mixed", n, h, a)
@@ -187,7 +187,7 @@ def train_step(B, G, n, h, a):
     B.stub_randint(lambda high, size: [0] * size[0])
     B.stub_bernoulli(lambda p: np.ones(np.shape(p)))
     lr = B.var("lr")
-    st.fit(C.rows_tensor(B, data), epochs=2, pos_batch_size=2, neg_batch_size=1, k=1, lr=lr, input_bases=bases)
+    st.fit(C.rows_tensor(B, data), epochs=epochs, pos_batch_size=2, neg_batch_size=1, k=1, lr=lr, input_bases=bases)
     for i, v in enumerate(B.scalars(st.rbm_ph.aux_bias).reshape(-1)):
         G.eq("phase_aux_bias[%d]==0_after_training" % i, v, O.frac(0))
     am0 = B.scalars(st.rbm_am.aux_bias).reshape(-1)[0]
@@ -201,7 +201,8 @@ def jobs(tier):
     if tier != "quick":
         J += [dict(name="construct-4-2-3", module="checks.c20", scenario="construct", kwargs=dict(n=4, h=2, a=3)),
               dict(name="construct-1-2-2", module="checks.c20", scenario="construct", kwargs=dict(n=1, h=2, a=2)),
-              dict(name="train-212", module="checks.c20", scenario="train_step", kwargs=dict(n=2, h=1, a=2), opts=dict(env_range=0.6, var_ranges=[["lr", 0.05, 0.5]]))]
+              dict(name="train-112", module="checks.c20", scenario="train_step", kwargs=dict(n=1, h=1, a=2), opts=dict(env_range=0.6, var_ranges=[["lr", 0.05, 0.5]])),
+              dict(name="train-211-one-epoch", module="checks.c20", scenario="train_step", kwargs=dict(n=2, h=1, a=1, epochs=1), opts=dict(env_range=0.6, var_ranges=[["lr", 0.05, 0.5]]))]
     return J
 
 
